@@ -415,6 +415,32 @@ func TestC12(t *testing.T) {
 		return c
 	}, c12Check)
 
+	// overridden writes whose (client-compressed) body is incompressible and has a size within a few hundred bytes of 2^15,
+	// 2^16 or 2^17: the proxy re-encodes and re-compresses such a request
+	runProp(t, rec, "bigbody", perShard(evid.Pick(240, 8000)), func(rt *rapid.T) c12Case {
+		comp := rapid.SampledFrom([]string{"lz4", "lz4", "snappy"}).Draw(rt, "comp")
+		v := rapid.SampledFrom([]int{3, 4, 4, 66}).Draw(rt, "v")
+		c := c12Case{Version: v, Comp: comp, Unsupported: []int{int(primitive.ConsistencyLevelOne)}, Override: int(primitive.ConsistencyLevelLocalQuorum)}
+		size := rapid.SampledFrom([]int{1 << 15, 1 << 16, 1 << 16, 1 << 16, 1 << 17}).Draw(rt, "around") + rapid.IntRange(-400, 200).Draw(rt, "delta")
+		x := rapid.Uint64Range(1, 1<<62).Draw(rt, "noise") // the noise is a pure function of this drawn value (xorshift)
+		blob := make([]byte, size)
+		for i := range blob {
+			x ^= x << 13
+			x ^= x >> 7
+			x ^= x << 17
+			blob[i] = byte(x >> 24)
+		}
+		tok := nextToken()
+		msg := &message.Query{Query: "INSERT INTO ks1.t (k, v) VALUES ('" + tok + "', ?)", Options: &message.QueryOptions{Consistency: primitive.ConsistencyLevelOne, PositionalValues: []*primitive.Value{primitive.NewValue(blob)}}}
+		body, flags, err := protogen.EncodeBody(primitive.ProtocolVersion(v), msg, nil, false)
+		if err != nil {
+			rt.Fatalf("generator: %v", err)
+		}
+		c.Reqs = []c12Req{{Op: int(primitive.OpCodeQuery), Flags: int(flags), Compress: true, Body: hex.EncodeToString(body), Token: tok, Consistency: int(primitive.ConsistencyLevelOne), Note: "incompressible-body"}}
+		rec.Case(fmt.Sprintf("bigbody:%d:%s:%d", len(body), comp, v), "incompressible-body", fmt.Sprintf("bigbody:%dKiB", (len(body)+512)/1024), "bigbody:"+comp)
+		return c
+	}, c12Check)
+
 	// a long prepare history between the PREPARE of a SELECT and its EXECUTE
 	runProp(t, rec, "history", perShard(evid.Pick(12, 240)), func(rt *rapid.T) c12Case {
 		c := c12Case{Version: 4, Unsupported: []int{int(primitive.ConsistencyLevelOne)}, Override: int(primitive.ConsistencyLevelLocalQuorum), Filler: rapid.IntRange(9000, 20000).Draw(rt, "filler")}
